@@ -1,3 +1,282 @@
-//! C03 — not built yet.
-use crate::run::Run;
-pub fn run(_run: &Run) { eprintln!("C03: check not built yet"); std::process::exit(2); }
+//! C03 — every spec-conformant spelling of an object parses to the value it denotes.
+use crate::casecheck::check_case;
+use crate::panicmon::guard;
+use crate::par::par_for;
+use crate::printer::Printer;
+use crate::rng::{fnv, Rng};
+use crate::run::{show, Run};
+use crate::tape::Src;
+use crate::val::{gen_value, matches, GenOpts, V};
+use pdf::error::PdfError;
+use pdf::object::{NoResolve, PlainRef, Resolve};
+use pdf::parser::{parse, parse_indirect_object, parse_stream, parse_with_lexer, Context, Lexer, ParseFlags};
+use pdf::primitive::Primitive;
+use serde_json::{json, Value};
+use std::sync::Arc;
+
+/// Resolver that serves stream bytes out of the buffer being parsed (Resolve is a public trait).
+struct BufResolve<'a> { buf: &'a [u8] }
+impl<'a> Resolve for BufResolve<'a> {
+    fn resolve_flags(&self, _: PlainRef, _: ParseFlags, _: usize) -> pdf::error::Result<Primitive> { Err(PdfError::Reference) }
+    fn get<T: pdf::object::Object + datasize::DataSize>(&self, _: pdf::object::Ref<T>) -> pdf::error::Result<pdf::object::RcRef<T>> { Err(PdfError::Reference) }
+    fn options(&self) -> &pdf::object::ParseOptions { NoResolve.options() }
+    fn stream_data(&self, _: PlainRef, range: std::ops::Range<usize>) -> pdf::error::Result<Arc<[u8]>> {
+        self.buf.get(range).map(|s| s.into()).ok_or(PdfError::EOF)
+    }
+    fn get_data_or_decode(&self, id: PlainRef, range: std::ops::Range<usize>, _: &[pdf::enc::StreamFilter]) -> pdf::error::Result<Arc<[u8]>> { self.stream_data(id, range) }
+}
+
+struct SeqCase { text: Vec<u8>, items: Vec<(V, usize, usize)> }
+
+fn gen_seq(s: &mut Src, max_items: u32, depth: u32) -> SeqCase {
+    let n = 1 + s.draw(max_items);
+    let opts = GenOpts { depth, refs: true, max_str: 10, wide_names: s.draw(4) == 0 };
+    let vals: Vec<V> = (0..n).map(|_| gen_value(s, &opts, 0)).collect();
+    let mut p = Printer::new(s);
+    p.first_token();
+    let lead = p.s.alt(3, &["no_leading_ws", "leading_ws"]);
+    if lead == 1 { p.out.extend_from_slice(b" \n"); }
+    let mut items = Vec::new();
+    for v in vals { let (a, b) = p.value(&v); items.push((v, a, b)); }
+    // end of buffer directly after the last token is the plain form; trailing white-space is the alternative
+    match p.s.alt(2, &["eob_tight", "trailing_sp", "trailing_lf"]) { 1 => p.out.push(b' '), 2 => p.out.push(b'\n'), _ => {} }
+    let text = std::mem::take(&mut p.out);
+    SeqCase { text, items }
+}
+
+fn run_seq(c: &SeqCase) -> Option<(String, String)> {
+    let r = guard(|| {
+        let mut lx = Lexer::new(&c.text);
+        for (k, (v, _start, end)) in c.items.iter().enumerate() {
+            let next_start = c.items.get(k + 1).map(|x| x.1).unwrap_or(c.text.len());
+            match parse_with_lexer(&mut lx, &NoResolve, ParseFlags::ANY) {
+                Err(e) => return Some(("error-instead-of-value".to_string(), format!("item {}: {}", k, first_line(&e)))),
+                Ok(p) => {
+                    if let Err(m) = matches(&p, v, true) { return Some(("wrong-value".to_string(), format!("item {}: {}", k, m))); }
+                    let pos = lx.get_pos();
+                    if pos < *end || pos > next_start { return Some(("wrong-position".to_string(), format!("item {}: lexer at {} but the value's text is [..{}) and the next starts at {}", k, pos, end, next_start))); }
+                }
+            }
+        }
+        None
+    });
+    match r { Ok(x) => x, Err(p) => Some((p.signature(), p.describe())) }
+}
+fn first_line(e: &PdfError) -> String {
+    let k = crate::doc::root_kind(e);
+    let s = format!("{}", crate::doc::root_cause(e));
+    format!("{}: {}", k, s.lines().next().unwrap_or("").chars().take(80).collect::<String>())
+}
+
+// ---- indirect objects and streams
+struct IndCase { text: Vec<u8>, nr: u64, gen: u64, val: V, stream: Option<Vec<u8>>, use_parse_stream: bool }
+
+fn gen_ind(s: &mut Src) -> IndCase {
+    let nr = 1 + s.draw(100000) as u64;
+    let gen = if s.draw(4) == 0 { s.draw(65536) as u64 } else { 0 };
+    let is_stream = s.draw(3) == 0;
+    let opts = GenOpts { depth: 2, refs: true, max_str: 8, wide_names: false };
+    if !is_stream {
+        let val = gen_value(s, &opts, 0);
+        let mut p = Printer::new(s);
+        p.first_token();
+        p.tok(nr.to_string().as_bytes(), true, true);
+        p.tok(gen.to_string().as_bytes(), true, true);
+        p.tok(b"obj", true, true);
+        p.value(&val);
+        p.tok(b"endobj", true, true);
+        p.out.push(b'\n');
+        let text = std::mem::take(&mut p.out);
+        IndCase { text, nr, gen, val, stream: None, use_parse_stream: false }
+    } else {
+        let data = s.bytes(40);
+        let mut items: Vec<(String, V)> = vec![("Length".into(), V::Int(data.len() as i32))];
+        let extra = s.draw(3);
+        for i in 0..extra { items.insert(s.draw(items.len() as u32 + 1) as usize, (format!("K{}", i), gen_value(s, &GenOpts { depth: 1, refs: false, max_str: 6, wide_names: false }, 0))); }
+        let val = V::Dict(items);
+        let use_parse_stream = s.alt(2, &["via_indirect_object", "via_parse_stream"]) == 1;
+        let mut p = Printer::new(s);
+        p.first_token();
+        if !use_parse_stream {
+            p.tok(nr.to_string().as_bytes(), true, true);
+            p.tok(gen.to_string().as_bytes(), true, true);
+            p.tok(b"obj", true, true);
+        }
+        p.value(&val);
+        p.allow_comments = false;
+        p.tok(b"stream", true, true);
+        let eol = p.s.alt(2, &["stream_lf", "stream_crlf"]);
+        p.raw(if eol == 0 { b"\n" } else { b"\r\n" });
+        p.raw(&data);
+        match p.s.alt(2, &["endstream_after_lf", "endstream_tight", "endstream_after_crlf", "endstream_after_cr"]) { 0 => p.raw(b"\n"), 2 => p.raw(b"\r\n"), 3 => p.raw(b"\r"), _ => {} }
+        p.raw(b"endstream");
+        p.allow_comments = true;
+        if !use_parse_stream { p.after_regular(); p.tok(b"endobj", true, true); }
+        p.out.push(b'\n');
+        let text = std::mem::take(&mut p.out);
+        IndCase { text, nr, gen, val, stream: Some(data), use_parse_stream }
+    }
+}
+
+fn run_ind(c: &IndCase) -> Option<(String, String)> {
+    let r = guard(|| {
+        let res = BufResolve { buf: &c.text };
+        let parsed: Result<Primitive, PdfError> = if c.use_parse_stream {
+            let ctx = Context { decoder: None, id: PlainRef { id: c.nr, gen: c.gen } };
+            parse_stream(&c.text, &res, &ctx).map(Primitive::Stream)
+        } else {
+            let mut lx = Lexer::new(&c.text);
+            parse_indirect_object(&mut lx, &res, None, ParseFlags::ANY).and_then(|(r, p)| {
+                if r.id != c.nr || r.gen != c.gen { Err(PdfError::Other { msg: format!("wrong object id {} {}", r.id, r.gen) }) } else { Ok(p) }
+            })
+        };
+        match parsed {
+            Err(e) => Some(("error-instead-of-value".to_string(), first_line(&e))),
+            Ok(Primitive::Stream(st)) => {
+                let Some(data) = &c.stream else { return Some(("wrong-value".into(), "got a stream for a non-stream object".into())) };
+                if let Err(m) = matches(&Primitive::Dictionary(st.info.clone()), &c.val, true) { return Some(("wrong-value".into(), format!("stream dictionary: {}", m))); }
+                match st.raw_data(&res) {
+                    Ok(d) if &d[..] == &data[..] => None,
+                    Ok(d) => Some(("wrong-stream-data".into(), format!("stream data {:?} expected {:?}", show(&d), show(data)))),
+                    Err(e) => Some(("stream-data-error".into(), first_line(&e))),
+                }
+            }
+            Ok(p) => {
+                if c.stream.is_some() { return Some(("wrong-value".into(), "stream object parsed as non-stream".into())); }
+                matches(&p, &c.val, true).err().map(|m| ("wrong-value".to_string(), m))
+            }
+        }
+    });
+    match r { Ok(x) => x, Err(p) => Some((p.signature(), p.describe())) }
+}
+
+// ---- exhaustive adjacency matrix: every pair of token kinds with every separator, in three contexts
+fn token_samples() -> Vec<(&'static str, V)> {
+    vec![
+        ("int", V::Int(12)), ("negint", V::Int(-7)), ("real", V::Real("3.25".into())), ("name", V::Name("Nm".into())), ("emptyname", V::Name("".into())),
+        ("lit", V::Str(b"a(b)c".to_vec())), ("hex", V::Str(vec![0x01, 0xfe])), ("true", V::Bool(true)), ("false", V::Bool(false)), ("null", V::Null),
+        ("ref", V::Ref(4, 0)), ("arr", V::Arr(vec![V::Int(1)])), ("emptyarr", V::Arr(vec![])), ("dict", V::Dict(vec![("K".into(), V::Int(2))])), ("emptydict", V::Dict(vec![])),
+    ]
+}
+const SEPS: [&str; 12] = ["sp", "sep_lf", "sep_cr", "sep_crlf", "sep_tab", "sep_ff", "sep_nul", "sep_run", "comment_lf", "comment_cr", "comment_crlf", "no_sep"];
+
+fn plain_text(v: &V) -> Vec<u8> {
+    let mut s = Src::replay(&[]);
+    let mut p = Printer::new(&mut s);
+    p.first_token();
+    p.value(v);
+    p.out
+}
+fn sep_bytes(name: &str) -> &'static [u8] {
+    match name { "sp" => b" ", "sep_lf" => b"\n", "sep_cr" => b"\r", "sep_crlf" => b"\r\n", "sep_tab" => b"\t", "sep_ff" => b"\x0c", "sep_nul" => b"\0",
+        "sep_run" => b" \n\t ", "comment_lf" => b"%c 1 0 obj (\n", "comment_cr" => b"%c ] >>\r", "comment_crlf" => b" %\r\n", _ => b"" }
+}
+fn regular_end(v: &V) -> bool { matches!(v, V::Int(_) | V::Real(_) | V::Name(_) | V::Bool(_) | V::Null | V::Ref(..)) }
+fn regular_start(v: &V) -> bool { matches!(v, V::Int(_) | V::Real(_) | V::Bool(_) | V::Null | V::Ref(..)) }
+
+fn adjacency(run: &Run) {
+    let toks = token_samples();
+    let mut n = 0u64;
+    for (an, a) in &toks { for (bn, b) in &toks { for sep in SEPS {
+        if sep == "no_sep" && regular_end(a) && regular_start(b) { continue; }
+        for ctx in ["seq", "array", "dict"] {
+            let (ta, tb) = (plain_text(a), plain_text(b));
+            let sb = sep_bytes(sep);
+            let (text, expect): (Vec<u8>, Vec<V>) = match ctx {
+                "seq" => ([&ta[..], sb, &tb[..]].concat(), vec![a.clone(), b.clone()]),
+                "array" => ([b"[", &ta[..], sb, &tb[..], b"]"].concat(), vec![V::Arr(vec![a.clone(), b.clone()])]),
+                _ => ([b"<</A ", &ta[..], sb, b"/B ", &tb[..], sb, b">>"].concat(), vec![V::Dict(vec![("A".into(), a.clone()), ("B".into(), b.clone())])]),
+            };
+            run.eval(); n += 1;
+            run.nontrivial(fnv(&text));
+            let out = guard(|| {
+                let mut lx = Lexer::new(&text);
+                for (k, v) in expect.iter().enumerate() {
+                    match parse_with_lexer(&mut lx, &NoResolve, ParseFlags::ANY) {
+                        Err(e) => return Some(("error-instead-of-value".to_string(), format!("item {}: {}", k, first_line(&e)))),
+                        Ok(p) => if let Err(m) = matches(&p, v, true) { return Some(("wrong-value".to_string(), format!("item {}: {}", k, m))); }
+                    }
+                }
+                None
+            });
+            let out = match out { Ok(x) => x, Err(p) => Some((p.signature(), p.describe())) };
+            if let Some((cls, detail)) = out {
+                // signature by separator + whether the left token ends regular / is an integer-like token + outcome
+                let left = if matches!(a, V::Int(_) | V::Ref(..)) { "after-int" } else if regular_end(a) { "after-regular" } else { "after-delimited" };
+                let right_eob = ctx == "seq" && matches!(b, V::Int(_));
+                let sig = format!("C03|adjacency|{}|{}{}|{}", sep, left, if right_eob { "+int-at-eob" } else { "" }, cls);
+                run.violation(&sig, &format!("{} {} {} in {}: {}", an, sep, bn, ctx, detail), json!({"text": show(&text), "context": ctx}));
+            }
+        }
+    } } }
+    run.add("adjacency_cases", n);
+    run.exhaustive("15x15 token kinds x 12 separators x {sequence, array, dictionary}", true);
+}
+
+fn single_bytes(run: &Run) {
+    // all 256 one-byte strings in every spelling the printer knows; all #xx names
+    for b in 0..=255u8 {
+        let spellings: Vec<(&str, Vec<u8>)> = {
+            let mut v = vec![("octal3", format!("(\\{:03o})", b).into_bytes()), ("hexU", format!("<{:02X}>", b).into_bytes()), ("hexL", format!("<{:02x}>", b).into_bytes()),
+                ("hex_ws", format!("< {:X}\n{:X} >", b >> 4, b & 15).into_bytes())];
+            if b < 0o100 { v.push(("octal-short", format!("(\\{:o})", b).into_bytes())); }
+            if b & 15 == 0 { v.push(("hex_odd", format!("<{:X}>", b >> 4).into_bytes())); }
+            if !b"()\\\r".contains(&b) { v.push(("raw", [b"(", &[b][..], b")"].concat())); }
+            if b"()\\".contains(&b) { v.push(("backslash", vec![b'(', b'\\', b, b')'])); }
+            if b == b'\n' { v.push(("raw_cr", b"(\r)".to_vec())); v.push(("raw_crlf", b"(\r\n)".to_vec())); v.push(("esc_n", b"(\\n)".to_vec())); }
+            if b == b'\r' { v.push(("esc_r", b"(\\r)".to_vec())); }
+            if b == b'\t' { v.push(("esc_t", b"(\\t)".to_vec())); }
+            if b == 8 { v.push(("esc_b", b"(\\b)".to_vec())); }
+            if b == 12 { v.push(("esc_f", b"(\\f)".to_vec())); }
+            if (0x20..0x7f).contains(&b) && !b"nrtbf()\\01234567".contains(&b) { v.push(("backslash_ignored", vec![b'(', b'\\', b, b')'])); }
+            v
+        };
+        for (sp, text) in spellings {
+            run.eval(); run.nontrivial(fnv(&text));
+            let r = guard(|| parse(&text, &NoResolve, ParseFlags::ANY));
+            let bad = match &r { Ok(Ok(Primitive::String(s))) if s.as_bytes() == [b] => None, Ok(Ok(p)) => Some(("wrong-value", crate::val::brief_p(p))), Ok(Err(e)) => Some(("error-instead-of-value", first_line(e))), Err(p) => Some(("panic", p.describe())) };
+            if let Some((cls, d)) = bad {
+                let class = match b { b'\n' | b'\r' => "eol-byte", 0x80..=0xff => "high-byte", 0..=0x1f => "ctrl-byte", _ => "printable" };
+                run.violation(&format!("C03|one-byte-string|{}|{}|{}", sp, if sp == "raw" || sp == "backslash_ignored" { class } else { "any" }, cls), &format!("{} -> {}", show(&text), d), json!({"text": show(&text), "byte": b}));
+            }
+        }
+        if b != 0 {
+            for text in [format!("/A#{:02X}B", b).into_bytes(), format!("/#{:02x}", b).into_bytes()] {
+                run.eval(); run.nontrivial(fnv(&text));
+                let mut exp: Vec<u8> = Vec::new();
+                if text[1] == b'A' { exp.push(b'A'); exp.push(b); exp.push(b'B'); } else { exp.push(b); }
+                let Ok(exp_s) = String::from_utf8(exp) else { continue }; // non-UTF-8 names are outside the domain (names are text in this library)
+                let r = guard(|| parse(&text, &NoResolve, ParseFlags::ANY));
+                let bad = match &r { Ok(Ok(Primitive::Name(n))) if n.as_str() == exp_s => None, Ok(Ok(p)) => Some(("wrong-value", crate::val::brief_p(p))), Ok(Err(e)) => Some(("error-instead-of-value", first_line(e))), Err(p) => Some(("panic", p.describe())) };
+                if let Some((cls, d)) = bad { run.violation(&format!("C03|name-hash-escape|{}", cls), &format!("{} -> {}", show(&text), d), json!({"text": show(&text)})); }
+            }
+        }
+    }
+    run.exhaustive("all 256 one-byte strings in each spelling; all #xx name escapes (UTF-8 results)", true);
+}
+
+fn witness_seq(c: &SeqCase) -> Value { json!({"text": show(&c.text), "values": c.items.iter().map(|(v, a, b)| json!({"v": crate::val::brief_v(v), "start": a, "end": b})).collect::<Vec<_>>()}) }
+fn witness_ind(c: &IndCase) -> Value { json!({"text": show(&c.text), "nr": c.nr, "gen": c.gen, "value": crate::val::brief_v(&c.val), "stream": c.stream.as_ref().map(|d| show(d))}) }
+
+pub fn run(run: &Run) {
+    run.rule("values (all Primitive kinds, depth<=4, i32 ints, reals <=7 significant digits, strings over all bytes, UTF-8 names) printed by a conformant randomized printer (separators: every white-space char, runs, comments ended by LF/CR/CRLF, none where legal; literal escapes, octal 1-3 digits, line continuations, balanced parens, raw EOLs; hex strings with ws/odd digits; names with #xx; +/leading-zero/fraction-only numbers; references; LF/CRLF after stream) as single values, sequences on one lexer (position checked) and indirect objects/streams; plus exhaustive token-adjacency matrix and all one-byte strings / #xx names. Failing cases are tape-shrunk; distinct_nontrivial = distinct texts");
+    run.assume("the printer in harness/src/printer.rs emits only spellings ISO 32000-1 7.2-7.3 permits; names restricted to valid UTF-8 without NUL");
+    adjacency(run);
+    single_bytes(run);
+    let n = run.n(600_000, 10_000_000);
+    let depth = if run.quick() { 3 } else { 4 };
+    par_for(n, |i| {
+        let s = Src::fresh(Rng::derive(run.seed, 3, i));
+        run.eval();
+        let max_items = if i % 3 == 0 { 1 } else { 6 };
+        check_case(run, "C03", "seq", s, &|s| gen_seq(s, max_items, depth), &run_seq, &witness_seq,
+            &|c, s| { run.nontrivial(fnv(&c.text)); for l in &s.labels { run.count(&format!("label:{}", l)); } if i < 5 { run.sample(witness_seq(c)); } });
+    });
+    let n2 = run.n(300_000, 5_000_000);
+    par_for(n2, |i| {
+        let s = Src::fresh(Rng::derive(run.seed, 33, i));
+        run.eval();
+        check_case(run, "C03", "indirect", s, &gen_ind, &run_ind, &witness_ind,
+            &|c, s| { run.nontrivial(fnv(&c.text)); run.count(if c.stream.is_some() { "indirect:stream" } else { "indirect:value" }); for l in &s.labels { run.count(&format!("label:{}", l)); } if i < 3 { run.sample(witness_ind(c)); } });
+    });
+}
